@@ -368,7 +368,7 @@ static Result run_history(const Case &c, int mode) {
             if (!s.live || !s.has_stripe || s.g.backend == ref::B_NULL) continue;
             int n = s.g.n(), t = ref::tolerance(s.g);
             int64_t salt = c.get("salt") + gi++;
-            int e = std::min(t, 1 + (int)(salt % 2));
+            int e = std::min(t, 1 + (int)(salt % 3 == 0 ? t - 1 : salt % std::max(1, t)));
             std::vector<std::unique_ptr<Guarded>> gs;
             long pg = sysconf(_SC_PAGESIZE);
             uint64_t pm = 0;
@@ -424,6 +424,105 @@ static Result run_history(const Case &c, int mode) {
     else if (mode == MODE_C15) r.nontrivial = w.encodes_same >= 1 && w.rebuilt;
     else r.nontrivial = w.failing_call && w.rebuilt;
     return r;
+}
+// C15 sweep case: one decode + reconstruct with every input (fragments, pointer array) on read-only pages
+// flush against guard pages. `aligned`=1 keeps the fragments 16-byte aligned (the library then works on the
+// caller's buffers directly - any in-place scratch use faults), 0 forces the re-aligning copy path.
+static Result run_c15_guard(const Case &c) {
+    Result r;
+    Config g = cfg_from(c);
+    if (ref::is_isa(g.backend) && !isa_available()) { r.skipped = true; return r; }
+    std::vector<uint8_t> data = expand_buffer(c, "data");
+    Instance in(g);
+    if (!in.ok()) { r.fail("create refused"); return r; }
+    Stripe s = encode(in.desc, g, data);
+    if (s.rc != 0) { r.fail("encode failed"); return r; }
+    int n = g.n();
+    std::vector<int> present = c.ints("present");
+    bool aligned = c.get("aligned") != 0;
+    int flushsel = (int)c.get("flush");
+    uint64_t pm = 0;
+    std::vector<std::unique_ptr<Guarded>> gs;
+    std::vector<char *> ptrs;
+    for (size_t i = 0; i < present.size(); i++) {
+        int idx = present[i];
+        pm |= 1ull << idx;
+        gs.emplace_back(new Guarded);
+        bool end_flush = ((flushsel >> (i % 16)) & 1) == 0;
+        gs.back()->place(s.frags[idx].data(), s.frags[idx].size(), end_flush, aligned ? 0 : (int)(1 + (i * 7 + flushsel) % 15));
+        ptrs.push_back((char *)gs.back()->p);
+    }
+    if (ptrs.empty()) { r.skipped = true; return r; }
+    Guarded arr; arr.place((const uint8_t *)ptrs.data(), ptrs.size() * sizeof(char *), true, 0);
+    bool demand = (n - __builtin_popcountll(pm)) <= ref::tolerance(g) && !(g.backend == ref::B_ISA_V && !ref::isa_first_k_invertible(g, pm));
+    char *out = nullptr; uint64_t ol = 0;
+    int rc = liberasurecode_decode(in.desc, (char **)arr.p, (int)ptrs.size(), s.fraglen, (int)c.get("force"), &out, &ol);
+    if (rc == 0) { if (ol != data.size() || (ol && memcmp(out, data.data(), ol))) r.fail("guarded decode returned wrong data"); liberasurecode_decode_cleanup(in.desc, out); }
+    else if (demand) r.fail("guarded decode failed rc=" + std::to_string(rc));
+    for (int d : c.ints("dests")) {
+        if (d < 0 || d >= n) continue;
+        std::vector<uint8_t> o(s.fraglen, 0xA5);
+        rc = liberasurecode_reconstruct_fragment(in.desc, (char **)arr.p, (int)ptrs.size(), s.fraglen, d, (char *)o.data());
+        if (rc == 0) { if (o != s.frags[d]) r.fail("guarded reconstruct(" + std::to_string(d) + ") returned a different fragment"); }
+        else if (demand) r.fail("guarded reconstruct(" + std::to_string(d) + ") failed rc=" + std::to_string(rc));
+    }
+    for (size_t i = 0; i < gs.size(); i++) if (memcmp(gs[i]->p, s.frags[present[i]].data(), s.frags[present[i]].size())) r.fail("an input fragment changed");
+    bool lost_data = false;
+    for (int i = 0; i < g.k; i++) if (!(pm >> i & 1)) lost_data = true;
+    r.cls(std::string("be_") + be_name(g.backend)); r.cls(aligned ? "aligned_inputs" : "unaligned_inputs");
+    r.nontrivial = lost_data;
+    return r;
+}
+// every flat-XOR table x every erasure set below hd, and every RS/ISA shape with |E| = m, under guard pages
+static void sweep_c15_guard() {
+    int shard = (int)opts().shard, ns = (int)opts().nshards, counter = 0;
+    bool th = opts().tier == "thorough";
+    auto emit = [&](const Config &g, const std::vector<int> &E, int variant) {
+        int n = g.n();
+        Case c; cfg_to(c, g);
+        // payload a multiple of 16 so that aligned buffers end exactly at the guard page
+        size_t unit = (size_t)g.k * 16;
+        c.set("data_cls", BUF_RANDOM); c.set("data_seed", 900 + counter); c.set("data_len", (int64_t)(unit * (1 + variant % 2)));
+        std::vector<bool> gone(n, false);
+        for (int x : E) gone[x] = true;
+        std::vector<int> p;
+        for (int i = 0; i < n; i++) if (!gone[i]) p.push_back(i);
+        c.setv("present", p);
+        c.set("aligned", variant < 2 ? 1 : 0); c.set("flush", variant == 1 ? 0xffff : (counter & 0xffff) * (variant == 0 ? 0 : 1)); c.set("force", 0);
+        c.setv("dests", E);
+        sweep_case(c, run_c15_guard);
+    };
+    for (int si = 0; si < ref::N_XOR_SHAPES; si++) {
+        const ref::XorShape &sh = ref::XOR_SHAPES[si];
+        Config g; g.backend = ref::B_XOR; g.k = sh.k; g.m = sh.m; g.hd = sh.hd; g.ct = (si & 1) ? CT_CRC32 : CT_NONE;
+        int n = g.n();
+        for (int e = 1; e < sh.hd; e++) {
+            std::vector<int> idx(e);
+            for (int i = 0; i < e; i++) idx[i] = i;
+            for (;;) {
+                if ((counter++ % ns) == shard) { emit(g, idx, 0); if (th || (counter % 4) == 0) { emit(g, idx, 1); emit(g, idx, 2); } }
+                int i = e - 1;
+                while (i >= 0 && idx[i] == n - e + i) i--;
+                if (i < 0) break;
+                idx[i]++;
+                for (int j = i + 1; j < e; j++) idx[j] = idx[j - 1] + 1;
+            }
+        }
+    }
+    for (int be : {ref::B_RS, ref::B_ISA_C, ref::B_ISA_V})
+        for (int k = 1; k <= 31; k++) for (int m = 1; k + m <= 32; m++) {
+            if (ref::is_isa(be) && (!isa_available() || ((k + m) % 3 && !th))) continue;
+            if ((counter++ % ns) != shard) continue;
+            Config g; g.backend = be; g.k = k; g.m = m; g.hd = m; g.ct = (k & 1) ? CT_CRC32 : CT_NONE;
+            std::vector<int> E; uint64_t sd = 31 + counter; std::vector<bool> gone(k + m, false);
+            int nd = std::min(k, (m + 1) / 2);
+            while ((int)E.size() < nd) { int x = (int)(splitmix64(sd) % k); if (!gone[x]) { gone[x] = true; E.push_back(x); } }
+            while ((int)E.size() < m) { int x = k + (int)(splitmix64(sd) % m); if (!gone[x]) { gone[x] = true; E.push_back(x); } }
+            std::sort(E.begin(), E.end());
+            emit(g, E, counter % 3);
+        }
+    stats().exhaustive = true;
+    stats().extra["xor_tables"] = ref::N_XOR_SHAPES;
 }
 static Result run_c14(const Case &c) { return run_history(c, MODE_C14); }
 static Result run_c15(const Case &c) { return run_history(c, MODE_C15); }
@@ -515,6 +614,7 @@ int main(int argc, char **argv) {
     h.mode("c14", [] { rc_property("C14 registry model", [] { return gen_history(MODE_C14); }, run_c14); }, run_c14);
     h.mode("c14_exhaustive", sweep_c14, run_c14);
     h.mode("c15", [] { rc_property("C15 purity", [] { return gen_history(MODE_C15); }, run_c15); }, run_c15);
+    h.mode("c15_guard_sweep", sweep_c15_guard, run_c15_guard);
     h.mode("c16", [] { rc_property("C16 histories", [] { return gen_history(MODE_C16); }, run_c16); }, run_c16);
     h.mode("c16_pairs", sweep_c16, run_c16_pair);
     return harness_main(argc, argv, h);
